@@ -1,3 +1,4 @@
+pub mod alloctrack;
 pub mod rng;
 pub mod util;
 pub mod varint;
